@@ -5,6 +5,7 @@ package main
 import (
 	"fmt"
 	"go/token"
+	"go/types"
 	"strings"
 
 	"golang.org/x/tools/go/ssa"
@@ -212,8 +213,104 @@ func checkC11(c *Check) {
 		c.OK("2/truthful-verdict", "runners:no-ctx.Err-path", "-", "no verdict is derived from the context's error")
 	}
 	sc := loadStatusConsts(p)
-	_ = sc
-	c.Expect("2/truthful-verdict", 1)
+	// "Runner Error" is produced only where an operation of the runner itself failed: every store of the constant
+	// into a result's Status depends on the outcome of an error test (err != nil / err == nil of an error value).
+	// The one other source on today's tree is the documented "child exited before execve" arm of the ptrace
+	// wait-status handler (an exit, not a kill). A verdict of Runner Error reached on a path without a failed
+	// operation turns a kill (cancellation) or an ordinary ending into an error of the runner.
+	runnerErr := sc.byName["StatusRunnerError"]
+	nRE := 0
+	for _, rel := range []string{"ptracer", "runner/unshare", "container"} {
+		for _, fn := range p.PkgFuncs(rel) {
+			var cd *cdInfo
+			site := 0
+			for _, b := range fn.Blocks {
+				for _, in := range b.Instrs {
+					var val ssa.Value
+					switch x := in.(type) {
+					case *ssa.Store:
+						fa, ok := x.Addr.(*ssa.FieldAddr)
+						if !ok || fieldName(fa.X.Type(), fa.Field) != "Status" {
+							continue
+						}
+						val = x.Val
+					case *ssa.Return:
+						for i, r := range x.Results {
+							if strings.HasSuffix(r.Type().String(), "runner.Status") {
+								if v, isC := constInt(x.Results[i]); isC && v == runnerErr {
+									val = r
+								}
+							}
+						}
+						if val == nil {
+							continue
+						}
+					default:
+						continue
+					}
+					if v, isC := constInt(val); !isC || v != runnerErr {
+						continue
+					}
+					if cd == nil {
+						cd = controlDeps(fn)
+					}
+					site++
+					nRE++
+					// a failed operation shows as a nil test: of an error value, of recover(), of an error record or a
+					// missing part of a reply (pointer)
+					dependsOnFailure := func(cd *cdInfo, b *ssa.BasicBlock) (onErr, exitedArm bool) {
+						for _, d := range cdChain(cd, b) {
+							iff := blockIf(d.b)
+							if iff == nil {
+								continue
+							}
+							if bo, ok := iff.Cond.(*ssa.BinOp); ok && (bo.Op == token.NEQ || bo.Op == token.EQL) && isNilConst(bo.Y) {
+								// which side of the test this block is on
+								nonNilSide := (bo.Op == token.NEQ) == (d.succ == 0)
+								switch t := bo.X.Type().Underlying().(type) {
+								case *types.Interface:
+									// error / recover(): the failure is the non-nil side
+									if nonNilSide {
+										onErr = true
+									}
+								case *types.Pointer:
+									// an error record in a reply: non-nil side; a missing mandatory part: nil side
+									isErrRec := strings.Contains(strings.ToLower(t.Elem().String()), "error")
+									if nonNilSide == isErrRec {
+										onErr = true
+									}
+								}
+							}
+							if a, neg := condLit(iff.Cond); strings.Contains(a, "Exited(") && !neg == (d.succ == 0) {
+								exitedArm = true
+							}
+						}
+						return
+					}
+					onErr, exitedArm := dependsOnFailure(cd, b)
+					where := cd.guardOf(b).String()
+					if !onErr && !exitedArm && len(extraConds(cd, b)) == 0 && fn.Parent() == nil {
+						// a helper that only builds the error result: judged at its call sites
+						sites := staticCallSites(fn)
+						all := len(sites) > 0
+						for _, cs := range sites {
+							cfn := cs.Parent()
+							ccd := controlDeps(cfn)
+							if e1, _ := dependsOnFailure(ccd, cs.Block()); !e1 {
+								all = false
+								where = "call at " + p.Pos(cs.Pos()) + " under " + ccd.guardOf(cs.Block()).String()
+							}
+						}
+						onErr = all
+					}
+					key := fmt.Sprintf("%s.%s:runner-error#%d", rel, fn.Name(), site)
+					c.Cond(onErr || exitedArm, "2/truthful-verdict", key, p.Pos(in.Pos()), "Runner Error depends on a failed operation (or is the exit-before-exec arm)",
+						"Runner Error is produced under "+where+", which involves no failed operation: a killed (cancelled) or normally ended run is reported as an error of the runner")
+				}
+			}
+		}
+	}
+	c.Expect("2/truthful-verdict", 6)
 
 	// ---------- 3: vanished tracee (shared with C15) ----------
 	var handle *ssa.Function
@@ -274,7 +371,65 @@ func checkC11(c *Check) {
 			}
 		}
 	}
-	c.Expect("5/destroy", 5)
+	// 'done' is closed only together with a non-nil transport error: the function that closes it stores its error
+	// parameter, and every caller passes a value that is non-nil on that path (the call depends on `err != nil` of
+	// the value passed). Closing 'done' with a nil error makes the in-flight acknowledgement-style calls (Ping,
+	// Reset, Delete) return success for an environment that was destroyed under them.
+	for _, side := range []string{"container", "containerServer"} {
+		for _, fn := range p.PkgFuncs("container") {
+			if fn.Signature.Recv() == nil || !strings.HasSuffix(fn.Signature.Recv().Type().String(), "container."+side) || fn.Parent() != nil {
+				continue
+			}
+			closes := false
+			for _, af := range append([]*ssa.Function{fn}, fn.AnonFuncs...) {
+				for _, ci := range callInstrs(af) {
+					if b, ok := ci.Common().Value.(*ssa.Builtin); ok && b.Name() == "close" && strings.HasSuffix(describe(ci.Common().Args[0]), ".done") {
+						closes = true
+					}
+				}
+			}
+			if !closes || len(fn.Params) != 2 || fn.Params[1].Type().String() != "error" {
+				continue
+			}
+			for i, cs := range staticCallSites(fn) {
+				arg := cs.Common().Args[1]
+				cfn := cs.Parent()
+				ccd := controlDeps(cfn)
+				g := ccd.guardOf(cs.Block())
+				nonNil := false
+				// dominance, not control dependence: in a `for { ...; if err != nil { report; return } }` loop the error
+				// arm is the only way out and therefore post-dominates the loop
+				for _, db := range cfn.Blocks {
+					iff := blockIf(db)
+					if iff == nil {
+						continue
+					}
+					if bo, ok := iff.Cond.(*ssa.BinOp); ok && isNilConst(bo.Y) && bo.X == arg {
+						idx := 0
+						if bo.Op == token.EQL {
+							idx = 1
+						} else if bo.Op != token.NEQ {
+							continue
+						}
+						if sb := db.Succs[idx]; len(sb.Preds) == 1 && sb.Dominates(cs.Block()) {
+							nonNil = true
+						}
+					}
+				}
+				if _, isMI := arg.(*ssa.MakeInterface); isMI {
+					nonNil = true // a concrete error value
+				}
+				if call, ok := arg.(*ssa.Call); ok {
+					if n, _ := calleeOf(call); n == "fmt.Errorf" || n == "errors.New" {
+						nonNil = true
+					}
+				}
+				c.Cond(nonNil, "5/destroy", fmt.Sprintf("container.(%s).%s:caller#%d(%s)", side, fn.Name(), i+1, cfn.Name()), p.Pos(cs.Pos()),
+					"'done' is closed with an error that is non-nil on this path", "'done' can be closed here with a nil error ("+describe(arg)+" under "+g.String()+"): calls in flight then report success although the environment is gone")
+			}
+		}
+	}
+	c.Expect("5/destroy", 8)
 }
 
 // describeCmdKind renders the constant Cmd field of a cmd literal passed by value.
